@@ -275,7 +275,7 @@ def _reaction_to_dict(reaction: Reaction) -> OrderedDict:
             continue
         mets = OrderedDict()
         for met in sorted(reaction.metabolites, key=attrgetter("id")):
-            mets[str(met)] = reaction.metabolites[met]
+            mets[str(met)] = _fix_type(reaction.metabolites[met])
         new_reaction["metabolites"] = mets
     _update_optional(
         reaction,
